@@ -226,7 +226,7 @@ func runCauseTable(c *Ctx) {
 	ob[0].Kind, ob[0].O = "nonhex", nil
 	_, r = w.WMint(q1, ob, 0, plainT)
 	ex("output-B-not-hex", "", "", r)
-	// the defect candidate of DESIGN §C20: a storage fault at the "restore previous state" write
+	// regression of fix 1c07e11 (was: 400 with the body {}): a storage fault at the "restore previous state" write
 	w.ArmFault(2) // GetMintQuote, UpdateMintQuoteState(PENDING), [refused: over quote], UpdateMintQuoteState(PAID) <- fails
 	_, r = w.WMint(q1, g.outputs(260, act), 0, plainT)
 	consumed := w.Disarm()
@@ -554,8 +554,9 @@ func codeSuffix(r *wres) string {
 	return ""
 }
 
-// keyAmbiguity: the cache key is the plain concatenation method + URL + body.  A request whose URL ends with the first
-// JSON value of an earlier request's body and whose body is the rest has the same key.
+// keyAmbiguity (regression of fix 65f9524): the cache key WAS the plain concatenation method + URL + body, so a request whose
+// URL ends with the first JSON value of an earlier request's body and whose body is the rest had the same key and was
+// served the earlier response.  With NUL separators the second request is executed (and refused: a swap without inputs).
 func (g *wgen) keyAmbiguity() {
 	w := g.w
 	ps := g.pick(1)
